@@ -296,10 +296,11 @@ func offAdd(off Term, k int64) Term {
 // loadLeaves reads the memory image of type t at (ref, off) as a Value.
 func (x *Exec) loadAt(s *State, t types.Type, ref, off Term) Value {
 	ls := x.E.layout(t)
+	mo := x.E.memOffsets(t)
 	v := Value{T: t, L: make([]Term, len(ls))}
 	for i, srt := range ls {
 		h := x.heap(s, srt)
-		v.L[i] = Select(Select(h, ref, ObjSort(srt)), offAdd(off, int64(i)), srt)
+		v.L[i] = Select(Select(h, ref, ObjSort(srt)), offAdd(off, mo[i]), srt)
 	}
 	x.assumeTypeInv(s, v)
 	return v
@@ -311,10 +312,11 @@ func (x *Exec) storeAt(s *State, ref, off Term, v Value) {
 		panic(fmt.Sprintf("storeAt: layout mismatch for %s: %d vs %d", v.T, len(ls), len(v.L)))
 	}
 	// group by sort so that each heap is updated once
+	mo := x.E.memOffsets(v.T)
 	for i, srt := range ls {
 		h := x.heap(s, srt)
 		obj := Select(h, ref, ObjSort(srt))
-		nh := Store(h, ref, Store(obj, offAdd(off, int64(i)), v.L[i]))
+		nh := Store(h, ref, Store(obj, offAdd(off, mo[i]), v.L[i]))
 		s.Heaps[srt] = x.C.Define("H", nh)
 	}
 }
